@@ -155,6 +155,17 @@ class Renamer(ast.NodeTransformer):
     return node
 
 
+class _Probe(dict):
+  """A renames map that renames nothing and records which (table, column) keys were looked up."""
+  def __init__(self):
+    dict.__init__(self)
+    self.seen = set()
+
+  def get(self, key, default=None):
+    self.seen.add(key)
+    return default
+
+
 def rename_tree(tree, ctx, renames):
   """The same renames applied to a stored parsed tree ([NODE_TYPE, args...])."""
   if not isinstance(tree, list) or not tree:
@@ -218,9 +229,9 @@ _SEL = st.sampled_from([0, 0, 0, 0, 1, 1, 1, 2, 2, 3, 4, 5, 6, 7])
 
 
 def expr_strategy():
-  ref = st.tuples(st.just('ref'), st.integers(0, 15), _SEL, st.integers(0, 3)).map(list)
+  ref = st.tuples(st.just('ref'), st.integers(0, 19), _SEL, st.integers(0, 3)).map(list)
   const = st.tuples(st.just('const'), st.integers(0, len(CONSTS) - 1)).map(list)
-  leaf = st.one_of(ref, ref, ref, const)
+  leaf = st.one_of(ref, ref, ref, ref, ref, const)
   def ext(ch):
     return st.one_of(
       st.tuples(st.sampled_from(['and', 'or']), st.lists(ch, min_size=2, max_size=3)).map(list),
@@ -292,50 +303,63 @@ def render_ref(rc, kind, sel, style):
   return forms[kind % len(forms)]
 
 
+def _i(x):
+  return abs(x) if isinstance(x, int) and not isinstance(x, bool) else 0
+
+
+def _n(node, k):
+  """k-th child of a (possibly shrunk) node, as a node."""
+  x = node[k] if isinstance(node, list) and len(node) > k else None
+  return x if isinstance(x, list) and x and isinstance(x[0], str) else ['const', 0]
+
+
 def render(rc, node, ml=False):
-  t = node[0] if node else 'const'
+  if not isinstance(node, list) or not node or not isinstance(node[0], str):
+    return 'True'
+  t = node[0]
+  node = list(node) + [0, 0, 0, 0]
   if t == 'ref':
-    return render_ref(rc, abs(int(node[1])), abs(int(node[2])), abs(int(node[3])))
+    return render_ref(rc, _i(node[1]), _i(node[2]), _i(node[3]))
   if t == 'const':
-    return CONSTS[abs(int(node[1])) % len(CONSTS)]
+    return CONSTS[_i(node[1]) % len(CONSTS)]
   if t in ('and', 'or'):
-    subs = [render(rc, x) for x in (node[1] or [])] or ['True']
+    subs = [render(rc, x) for x in (node[1] if isinstance(node[1], list) else [])] or ['True']
     parts = [('(%s)' % s) for s in subs]
     if ml:
       cm = (rc.self_cols or rc.other_cols)
       return (' %s  # %s $%s\n  ' % (t, cm[0], cm[-1])).join(parts)
     return (' %s ' % t).join(parts)
   if t == 'not':
-    return 'not (%s)' % render(rc, node[1])
+    return 'not (%s)' % render(rc, _n(node, 1))
   if t == 'cmp':
-    return '(%s) %s (%s)' % (render(rc, node[2]), CMP[abs(int(node[1])) % len(CMP)], render(rc, node[3]))
+    return '(%s) %s (%s)' % (render(rc, _n(node, 2)), CMP[_i(node[1]) % len(CMP)], render(rc, _n(node, 3)))
   if t == 'bin':
-    return '(%s) %s (%s)' % (render(rc, node[2]), BIN[abs(int(node[1])) % len(BIN)], render(rc, node[3]))
+    return '(%s) %s (%s)' % (render(rc, _n(node, 2)), BIN[_i(node[1]) % len(BIN)], render(rc, _n(node, 3)))
   if t == 'list':
-    subs = [render(rc, x) for x in (node[1] or [])]
+    subs = [render(rc, x) for x in (node[1] if isinstance(node[1], list) else [])]
     return '[' + ', '.join(subs) + ']'
   if t == 'call':
-    k = abs(int(node[1])) % 5
-    a = render(rc, node[2])
+    k = _i(node[1]) % 5
+    a = render(rc, _n(node, 2))
     return ['len(%s)', '(%s).lower()', 'foo(%s, k=1)', '(%s).upper()', 'str(%s)'][k] % a
   if t == 'paren':
-    return '( %s )' % render(rc, node[1])
+    return '( %s )' % render(rc, _n(node, 1))
   return 'True'
 
 
 def render_top(rc, node):
   """-> (text, is_bad)"""
   cols = rc.self_cols or rc.other_cols
-  if not node or node[0] != 'top':
+  if not isinstance(node, list) or not node or node[0] != 'top':
     return 'True', False
   node = (list(node) + [0, 0, 0, 0, 0])[:6]
-  badsel = abs(int(node[4])) % 100
+  badsel = _i(node[4]) % 100
   if badsel >= 88:
-    X = cols[abs(int(node[5])) % len(cols)]
+    X = cols[_i(node[5]) % len(cols)]
     A = rc.attrs[0] if rc.attrs else 'School'
     pool = BAD_PYTHON if badsel >= 98 else BAD_UNSUPPORTED
-    return pool[(badsel + abs(int(node[2])) * 7) % len(pool)].format(X=X, A=A), True
-  e, ci, layout = node[1], abs(int(node[2])), abs(int(node[3])) % 5
+    return pool[(badsel + _i(node[2]) * 7) % len(pool)].format(X=X, A=A), True
+  e, ci, layout = _n(node, 1), _i(node[2]), _i(node[3]) % 5
   X = cols[ci % len(cols)]
   comment = ['', '# %s' % X, u'# ünîcødé %s' % X, '# rec.%s must stay' % X, '# $%s' % X, '', '# "', '#'][ci % 8]
   if layout == 0:
@@ -359,7 +383,7 @@ def _distinct(pool, picks, n, used=None):
   out = []
   picks = (list(picks) + list(range(n)))[:n]
   for p in picks:
-    k = abs(int(p)) % len(pool)
+    k = _i(p) % len(pool)
     while pool[k].upper() in used:
       k = (k + 1) % len(pool)
     used.add(pool[k].upper())
@@ -397,11 +421,11 @@ def build(case, out):
   attrs = []
   for i, a in enumerate((case.get('attrs') or [[0, 0, 0]])[:2]):
     a = (list(a) + [0, 0, 0])[:3]
-    name = ATTR_NAMES[(abs(int(a[0])) + i) % len(ATTR_NAMES)]
+    name = ATTR_NAMES[(_i(a[0]) + i) % len(ATTR_NAMES)]
     if name in [x[0] for x in attrs]:
       continue
-    role = ['U', 'U', 'R', 'T', 'U', 'R'][abs(int(a[1])) % 6]
-    lc = cols[role][abs(int(a[2])) % len(cols[role])]
+    role = ['U', 'U', 'R', 'T', 'U', 'R'][_i(a[1]) % 6]
+    lc = cols[role][_i(a[2]) % len(cols[role])]
     attrs.append((name, role, lc))
   attr_cols = {a[0]: cols[a[1]] for a in attrs}
   attr_names = [a[0] for a in attrs]
@@ -420,8 +444,8 @@ def build(case, out):
   resources = [(None, '*')]      # index 0 = default
   for i, rs in enumerate((case.get('resources') or [[0, 3]])[:3]):
     rs = (list(rs) + [0, 0])[:2]
-    role = ['T', 'T', 'R', 'T'][abs(int(rs[0])) % 4]
-    mask = abs(int(rs[1]))
+    role = ['T', 'T', 'R', 'T'][_i(rs[0]) % 4]
+    mask = _i(rs[1])
     picked = [c for j, c in enumerate(cols[role]) if (mask >> j) & 1]
     colids = ','.join(picked) if picked else '*'
     uas.append(['AddRecord', '_grist_ACLResources', -(i + 2), {'tableId': tables[role], 'colIds': colids}])
@@ -429,7 +453,7 @@ def build(case, out):
   rule_plan = []
   for i, ru in enumerate((case.get('rules') or [])[:4]):
     ru = (list(ru) + [0, None])[:2]
-    ri = abs(int(ru[0])) % len(resources)
+    ri = _i(ru[0]) % len(resources)
     role = resources[ri][0]
     txt, is_bad = render_top(rctx('acl', role), ru[1])
     rule_plan.append((i, ri, txt, is_bad))
@@ -456,9 +480,9 @@ def build(case, out):
   used_cols = set()
   for i, dd in enumerate((case.get('dropdowns') or [])[:3]):
     dd = (list(dd) + [0, 0, None])[:3]
-    which = ['ref', 'refs', 'pick', 'ref', 'refs', 'text'][abs(int(dd[0])) % 6]
+    which = ['ref', 'refs', 'pick', 'ref', 'refs', 'text'][_i(dd[0]) % 6]
     cid = {'ref': tcols[5], 'refs': tcols[6], 'pick': tcols[7], 'text': tcols[0]}[which]
-    where = ['column', 'field', 'column'][abs(int(dd[1])) % 3]
+    where = ['column', 'field', 'column'][_i(dd[1]) % 3]
     if (cid, where) in used_cols:
       continue
     used_cols.add((cid, where))
@@ -488,8 +512,8 @@ def build(case, out):
   trig_bad = []
   for i, tg in enumerate((case.get('triggers') or [])[:2]):
     tg = (list(tg) + [0, 0, None])[:3]
-    role = ['T', 'T', 'R', 'T'][abs(int(tg[0])) % 4]
-    mode = abs(int(tg[1])) % 3
+    role = ['T', 'T', 'R', 'T'][_i(tg[0]) % 4]
+    mode = _i(tg[1]) % 3
     txt, is_bad = render_top(rctx('trigger', role), tg[2])
     if mode == 0:
       cond = txt
@@ -605,31 +629,38 @@ COL_PATHS = ['RenameColumn', 'RenameColumn', 'meta-colId', 'meta-colId', 'label-
 
 
 def resolve_rename(stt, obs, spec):
-  what = abs(int(spec.get('what') or 0)) % 20
+  what = _i(spec.get('what') or 0) % 20
   roles = ['T', 'R', 'U']
   labels = []
   if what == 19 or what == 18:
-    role = roles[abs(int(spec.get('ent') or 0)) % 3]
+    role = roles[_i(spec.get('ent') or 0) % 3]
     cur = obs['tables'][stt['tref'][role]]
-    name = (PLAIN + ODD)[abs(int(spec.get('ti') or 0)) % len(PLAIN + ODD)] or 'Tbl'
-    path = abs(int(spec.get('path') or 0)) % 2
+    name = (PLAIN + ODD)[_i(spec.get('ti') or 0) % len(PLAIN + ODD)] or 'Tbl'
+    path = _i(spec.get('path') or 0) % 2
     uas = [['RenameTable', cur, name]] if path == 0 else \
           [['UpdateRecord', '_grist_Tables', stt['tref'][role], {'tableId': name}]]
     return uas, ['rename:table-' + role, 'path:' + ['RenameTable', 'meta-tableId'][path]]
   role = ['T', 'T', 'T', 'R', 'R', 'U'][what % 6]
   ents = [(role, c) for c in stt['cols'][role]]
-  if what % 4:
-    # prefer columns whose current id occurs in some stored formula (so that the rename meets a reference)
-    texts = ' '.join(f['text'] for f in formulas_of(obs).values())
-    words = set(re.findall(r'[A-Za-z_][A-Za-z_0-9]*', texts))
-    hot = [e for e in ents if obs['cols'][stt['cref'][e]]['colId'] in words]
-    ents = hot or ents
   allents = [(r_, c) for r_ in roles for c in stt['cols'][r_]]
-  ent = ents[abs(int(spec.get('ent') or 0)) % len(ents)]
+  if what % 4:
+    # prefer a column that some stored formula refers to through an entitled form (so that the rename meets a
+    # reference): collect the (table id, column id) keys the reference model looks up
+    probe = _Probe()
+    for f in formulas_of(obs).values():
+      tree = parse_indep(f['text'])
+      if tree is not None:
+        Renamer(f['ctx'], probe).visit(tree)
+    hot = [(r_, c) for r_ in roles for c in stt['cols'][r_]
+           if (obs['tables'][stt['tref'][r_]], obs['cols'][stt['cref'][(r_, c)]]['colId']) in probe.seen]
+    if hot:
+      ents = hot
+      role = ents[_i(spec.get('ent') or 0) % len(ents)][0]
+  ent = ents[_i(spec.get('ent') or 0) % len(ents)]
   ref = stt['cref'][ent]
   cur = obs['cols'][ref]['colId']
   tname = obs['tables'][stt['tref'][role]]
-  tk, ti = abs(int(spec.get('tk') or 0)) % 6, abs(int(spec.get('ti') or 0))
+  tk, ti = _i(spec.get('tk') or 0) % 6, _i(spec.get('ti') or 0)
   others = [c['colId'] for r_, c in sorted(obs['cols'].items())
             if c['parentId'] == stt['tref'][role] and c['colId'] != cur and not c['colId'].startswith('gristHelper')
             and c['colId'] != 'manualSort']
@@ -645,7 +676,7 @@ def resolve_rename(stt, obs, spec):
     name, kind = everywhere[ti % len(everywhere)], 'id-used-in-another-table'
   else:
     name, kind = cur + '2', 'old-id-plus-suffix'
-  path = COL_PATHS[abs(int(spec.get('path') or 0)) % len(COL_PATHS)]
+  path = COL_PATHS[_i(spec.get('path') or 0) % len(COL_PATHS)]
   labels += ['rename:column-of-' + role, 'path:' + path, 'target:' + kind]
   if path == 'RenameColumn':
     uas = [['RenameColumn', tname, cur, name]]
@@ -654,7 +685,7 @@ def resolve_rename(stt, obs, spec):
   elif path == 'label-tied':
     uas = [['UpdateRecord', '_grist_Tables_column', ref, {'label': name}]]
   else:
-    ent2 = allents[abs(int(spec.get('ent2') or 0)) % len(allents)]
+    ent2 = allents[_i(spec.get('ent2') or 0) % len(allents)]
     if ent2 == ent:
       uas = [['UpdateRecord', '_grist_Tables_column', ref, {'colId': name}]]
     else:
@@ -733,7 +764,10 @@ def judge(stt, before, after, reply, out, uas):
       direction = 'not-renamed' if (e is not None and (g, e) in name_pairs or
                                     (e or '').startswith(DMARK) and (g[len(DMARK):], e[len(DMARK):]) in name_pairs) \
           else 'wrongly-renamed' if e is not None else 'changed'
-      out.fail('C17:%s:%s:%s' % (where, direction, role),
+      sig = 'C17:%s:%s:%s' % (where, direction, role)
+      if where == 'dropdown-field' and direction == 'not-renamed' and new == old:
+        sig = 'C17:dropdown-field:not-renamed'     # perform_dropdown_condition_renames only visits columns
+      out.fail(sig,
                'after %r the %s reads %r (was %r): %s reference %r should be %r' % (uas, loc, new, old, role, g, e),
                {'old': old, 'new': new, 'renames': sorted([list(k), v] for k, v in renames.items()),
                 'self_table': ctx.self_table, 'choice_table': ctx.choice_table, 'attr_tables': ctx.attr_tables})
